@@ -102,8 +102,8 @@ def lattice(name):
                 for f in (0.25, 0.75, 1.25, 2.5, 10):
                     L.append((dict(suspect_threshold=s, fail_threshold=f, **mode), (s, f), tuple(sorted(mode.items()))))
     elif name == "density_inversion_test":
-        for s in (None, -2, -1, -0.5, 0.5):
-            for f in (None, -2, -1, -0.5, 0.5):
+        for s in (None, -2, -1, -0.5, 0, 0.5):
+            for f in (None, -2, -1, -0.5, 0, 0.5):
                 kw = {}
                 if s is not None:
                     kw["suspect_threshold"] = s
